@@ -7,6 +7,7 @@ import PtModel.Sexp
 import PtModel.Lower
 import PtModel.Pad
 import PtModel.EinsumLower
+import PtModel.AdvIndex
 import PtModel.Spec
 import PtModel.Affine
 import PtModel.Names
@@ -56,6 +57,24 @@ def showEAxis : EAxis → String
   | .elem k => s!"e{k}"
   | .red k => s!"r{k}"
 
+def parseNAIdx : Sx → Option NAIdx
+  | .list [.atom "int", k] => k.asInt?.map .int
+  | .list [.atom "slice", a, b, c] => do some (.slice ⟨← a.asInt?, ← b.asInt?, ← c.asInt?⟩)
+  | .list [.atom "arr", s] => do some (.arr (← s.asNats?) false)
+  | .list [.atom "arr", s, .atom "nonneg"] => do some (.arr (← s.asNats?) true)
+  | _ => none
+
+def parseRAIdx : Sx → Option RAIdx
+  | .list [.atom "int", k] => k.asInt?.map .int
+  | .list [.atom "slice", a, b, c] => do some (.slice (← a.asOptInt?) (← b.asOptInt?) (← c.asInt?))
+  | .list [.atom "arr", s, vals] => do some (.arr (← parseArr s vals) false)
+  | _ => none
+
+def parseContig : Sx → Option Bool
+  | .atom "C" => some true
+  | .atom "N" => some false
+  | _ => none
+
 def handleLower : List Sx → Option String
   | [.atom "roll", shift, axis, nd, n] => do
     some (Lower.roll (← shift.asInt?) (← axis.asNat?) (← nd.asNat?) (← n.asNat?)).toSx.toStr
@@ -70,6 +89,18 @@ def handleLower : List Sx → Option String
     match Lower.reshape (← parseOrder o) (← old.asNats?) (← new.asNats?) with
     | some e => some e.toSx.toStr
     | none => some "none"
+  | [.atom "advindex", c, .list ixs, shape] => do
+    -- (lower advindex C|N ((int k)|(slice start stop step)|(arr shape [nonneg]) …) shape)
+    -- `?` instead of C|N: the model decides contiguity itself (`_index_into`)
+    let nix ← ixs.mapM parseNAIdx
+    let cg ← match c with
+      | .atom "?" => some (Lower.advContiguous nix)
+      | _ => parseContig c
+    match Lower.advIndex cg nix (← shape.asNats?) with
+    | some e => some e.toSx.toStr
+    | none => some "none"
+  | [.atom "advcontig", .list ixs] => do
+    some (if Lower.advContiguous (← ixs.mapM parseNAIdx) then "#t" else "#f")
   | [.atom "einsum", .list ins, out, .list shapes] => do
     -- (lower einsum ((i j) (j k)) (i k) ((2 3) (3 4))): the expression
     let d := Lower.einsumDescrs (← ins.mapM parseLetters) (← parseLetters out)
@@ -117,6 +148,17 @@ def handleSpec : List Sx → Option String
     some (showArr (Spec.concatenate (← axis.asNat?) as .undef))
   | [.atom "basic", .list ix, shp, vals] => do
     some (showArr (Spec.basicIndex (← ix.mapM parseBIdx) (← parseArr shp vals)))
+  | [.atom "advindex", c, .list ixs, shp, vals] => do
+    -- (spec advindex C|N ((int k)|(slice st sp step)|(arr shape vals) …) shape vals)
+    let a ← parseArr shp vals
+    let raw ← ixs.mapM parseRAIdx
+    let nix := Lower.normAIdx a.shape raw
+    let B ← Raise.bcastShapes (Lower.advShapes nix)
+    let adv := Lower.advPositions nix
+    let cg ← match c with
+      | .atom "?" => some (Lower.advContiguous nix)
+      | _ => parseContig c
+    some (showArr (Spec.advIndex cg B (adv.headD 0) (adv.getLastD 0) raw a))
   | [.atom "einsum", .list ins, out, .list arrs] => do
     let o ← parseLetters out
     let d := Lower.einsumDescrs (← ins.mapM parseLetters) o
